@@ -150,6 +150,7 @@ class LRTDP(Plans):
 
         for i in range(iterations):
             if all(self.res.solved[s] for s in mdp.initial_state_dist().support):
+                self.res.converged = True
                 return
             self.lrtdp_trial(mdp, mdp.initial_state_dist().sample(rng=self.rng))
         if i == (iterations - 1):
